@@ -440,7 +440,20 @@ func (c *Ctx) globalAxioms() []string {
 	return out
 }
 
+// isFrame: frame obligations (nothing outside the modifies clause changed) are about object identity and allocation;
+// they are first tried without the quantified facts that come from user clauses (dropping assumptions is sound),
+// which keeps them fast and stable however many invariants a function carries.
+func (ob *Obligation) isFrame() bool {
+	i := strings.LastIndex(ob.Name, "/")
+	n := ob.Name[i+1:]
+	return strings.HasPrefix(n, "frame") || strings.HasPrefix(n, "inv-keep[fnframe") || strings.HasPrefix(n, "inv-keep[frame:")
+}
+
 func (ob *Obligation) query(prelude string, gax []string) string {
+	return ob.queryWith(prelude, gax, false)
+}
+
+func (ob *Obligation) queryWith(prelude string, gax []string, lean bool) string {
 	c := ob.Ctx
 	var sb strings.Builder
 	sb.WriteString("; " + ob.Name + "\n")
@@ -467,7 +480,22 @@ func (ob *Obligation) query(prelude string, gax []string) string {
 				continue
 			}
 		}
+		if lean && c.ftags[k] != "" && (strings.Contains(f, "(forall ") || strings.Contains(f, "(exists ")) {
+			continue
+		}
 		sb.WriteString("(assert " + f + ")\n")
+	}
+	for _, x := range ob.Extra {
+		if len(ob.Needs) > 0 && x.tag != "" {
+			if strings.HasPrefix(ob.Needs[0], "~") {
+				if contains(ob.Needs, "~"+x.tag) {
+					continue
+				}
+			} else if !contains(ob.Needs, x.tag) {
+				continue
+			}
+		}
+		sb.WriteString("(assert " + x.text + ")\n")
 	}
 	sb.WriteString("(assert " + ob.Reach + ")\n")
 	sb.WriteString("(assert (not " + ob.Goal + "))\n")
